@@ -450,7 +450,7 @@ def generate(repo, outdir, write=True):
     # further kernel translators (one module per source area); each provides generate(repo) -> ({file: text}, {tag: error})
     # and must itself be fail-soft (poisoned definitions on failure, the file always compiles)
     import importlib
-    for plug in ("pytrans_cms", "pytrans_hh", "pytrans_log", "pytrans_hllq", "pytrans_helpers", "pytrans_ngram"):
+    for plug in ("pytrans_cms", "pytrans_hh", "pytrans_log", "pytrans_hllq", "pytrans_helpers", "pytrans_ngram", "pytrans_api"):
         try:
             mod = importlib.import_module(plug)
         except ImportError:
